@@ -848,7 +848,8 @@ void simplecpp::TokenList::readfile(Stream &stream, const std::string &filename,
                 currentToken.erase(pos,2);
                 ++multiline;
             }
-            if (multiline || isLastLinePreprocessor()) {
+            // only a comment that starts on the directive's own line continues that directive
+            if (multiline || (isLastLinePreprocessor() && cback() && cback()->location.line == location.line)) {
                 pos = 0;
                 while ((pos = currentToken.find('\n',pos)) != std::string::npos) {
                     currentToken.erase(pos,1);
